@@ -97,6 +97,9 @@ fn build_plan(seed: u64) -> Plan {
     let kinds = [Kind::Rgb, Kind::Lin, Kind::Xyb, Kind::Hsl, Kind::Lin, Kind::Rgb];
     let mut dims: Vec<(usize, usize)> = DIMS_SMALL.to_vec();
     dims.extend_from_slice(&DIMS_LARGE);
+    // two frames above 2^21 pixels (one of them above 2^22): caches behind size gates of "more than full HD"
+    dims.push((1452, 1448));
+    dims.push((2052, 2048));
     for (i, (w, h)) in dims.iter().enumerate() {
         for k in 0..2 {
             let kind = kinds[(i + k) % kinds.len()];
@@ -141,7 +144,12 @@ fn build_plan(seed: u64) -> Plan {
             let (w, h) = *e.pick(&CTOR_DIMS);
             calls.push(Call::YuvNew { w, h, cfg: n_specified + e.below((cfgs.len() - n_specified) as u64) as usize, u16_storage: e.below(2) == 0 });
         } else {
-            calls.push(Call::Convert { img: e.below(imgs.len() as u64) as usize, edge: e.next_u32() as u8, cfg: e.below(cfgs.len() as u64) as usize });
+            // the four float images above 2^21 pixels (indices 20..24) are picked less often (cost)
+            let mut img = e.below(imgs.len() as u64) as usize;
+            if (20..24).contains(&img) && e.below(3) != 0 {
+                img = e.below(20) as usize;
+            }
+            calls.push(Call::Convert { img, edge: e.next_u32() as u8, cfg: e.below(cfgs.len() as u64) as usize });
         }
     }
     // make sure related calls occur near each other in at least one order: repeat a few calls with one field changed
